@@ -4,6 +4,7 @@ import itertools
 from fractions import Fraction as Fr
 from ..core import Result
 from ..pm import AnalysisError, unparse
+from ..match import Code
 from ..paths import paths, annotate, callee_names, call_attr
 from ..rat import (Ev, Rat, Sym, Poly, fn_eval, rat_eq, Inconclusive, ONE,
                    ZERO, const_of)
@@ -83,7 +84,7 @@ def linear(ctx):
             res.ok(f'{cn} inherits get_term / terms / poly')
     t = P.func('ZernikeStandard.terms')
     res.saw(t)
-    s = unparse(t.node, 3000)
+    s = Code(P, t)
     if 'for k, idx in enumerate(self.indices)' in s and 'n, m = idx' in s and \
             'self.get_term(self.coeffs[k], n, m, r, phi)' in s:
         res.ok('terms: get_term(coeffs[k], n_k, m_k, r, phi) for every index k')
@@ -300,7 +301,7 @@ def index_law(ctx):
         res.fail(ctx.finding('INDEX-LAW', f, apps[0],
                              'Fringe ordering number differs from the '
                              'published formula', construct='Fringe number'))
-    s = unparse(f.node, 4000)
+    s = Code(P, f)
     if 'sorted(zip(number, indices))' in s and 'indices_sorted[:120]' in s:
         res.ok('Fringe: sorted by number, first 120')
     else:
@@ -382,7 +383,7 @@ def index_law(ctx):
                              f'Noll parity correction wrong for (sign m, n mod '
                              f'4, got, want) = {bad[:3]}',
                              construct='Noll c table'))
-    s = unparse(f.node, 4000)
+    s = Code(P, f)
     if 'sorted(zip(number, indices))' in s and \
             'return indices_sorted' in s.replace('[:', ' ['):
         res.ok('Noll: sorted by number')
@@ -391,7 +392,7 @@ def index_law(ctx):
                              'Noll indices not sorted by their number',
                              construct='Noll sort'))
     init = P.func('ZernikeStandard.__init__')
-    s = unparse(init.node, 2000)
+    s = Code(P, init)
     if 'self.indices = self._generate_indices()' in s and \
             'len(coeffs) > 120' in s and 'raise ValueError' in s:
         res.ok('indices generated per family at construction; > 120 '
@@ -434,7 +435,7 @@ def fit(ctx):
         res.fail(ctx.finding('FAMILY-DISPATCH', f, f.node,
                              'unknown family accepted',
                              construct='family unknown'))
-    s = unparse(f.node, 4000)
+    s = Code(P, f)
     if 'self.radius = np.sqrt(self.x ** 2 + self.y ** 2)' in s and \
             'self.phi = np.arctan2(self.y, self.x)' in s and \
             s.index('self._fit()') > s.index('self.zernike ='):
@@ -472,7 +473,7 @@ def fit(ctx):
                              construct='_fit ' + bad[:30]))
     else:
         res.ok('_fit: coeffs := least_squares(self._objective, guess).x')
-    s = unparse(g.node, 2000)
+    s = Code(P, g)
     if 'for _ in range(self.num_terms)' in s:
         res.ok('initial guess has num_terms entries')
     else:
@@ -481,7 +482,7 @@ def fit(ctx):
                              construct='_fit guess length'))
     o = P.func('ZernikeFit._objective')
     res.saw(o)
-    s = unparse(o.node, 2000)
+    s = Code(P, o)
     if 'self.zernike.coeffs = coeffs' in s and \
             'self.zernike.poly(self.radius, self.phi)' in s and \
             'return z_computed - self.z' in s:
@@ -492,7 +493,7 @@ def fit(ctx):
                              construct='_objective'))
     z = P.func('ZernikeOPD.__init__')
     res.saw(z)
-    s = unparse(z.node, 2000)
+    s = Code(P, z)
     if 'x = self.distribution.x' in s and 'y = self.distribution.y' in s and \
             'z = self.data[0][0][0]' in s and \
             'ZernikeFit.__init__(self, x, y, z, zernike_type, num_terms)' in s \
